@@ -7,6 +7,7 @@ NEEDS_VO = ["Check/C01.v", "Check/Prog.v"]
 KNOWN_FILE = os.path.join(os.path.dirname(os.path.dirname(os.path.abspath(__file__))), "known_c07.json")
 KINDS = {"r8": "CL", "r16": "BX", "r32": "EDX", "acc8": "AL", "acc16": "AX", "acc32": "EAX", "sreg": "DS", "creg": "CR0", "imm8": "5", "imm16": "0x1234", "imm32": "0x12345678",
          "neg": "-3", "mem16": "[BX+4]", "mem32": "[EDX+ECX*4+8]", "abs": "[0x0ff0]", "bytemem": "BYTE [SI]", "wordmem": "WORD [BX]", "dwordmem": "DWORD [0x0ff8]",
+         "farundef": "nosuchseg:0x10", "farbig": "0xF000:0xFFF0",      # far pointers whose segment is not a number gosk can encode
          "badpair": "[SI+DI]", "badpair2": "[BX+BP+4]", "badpair3": "[CX+SI]",      # register pairs that have no 16-bit ModR/M encoding
          "label": "lbl", "undef": "nosuchname", "str": "\"s\"", "far": "2*8:0x1b", "dollar": "$", "expr": "lbl+2", "memlabel": "[lbl]", "port": "0x3f8"}
 NON_EMITTING = {"ORG", "ALIGNB", "ALIGN", "END", "RESB", "RESW", "RESD", "RESQ", "REST", "TIMES", "DB", "DW", "DD", "DQ", "DT"}
@@ -81,6 +82,9 @@ def run(v, tier, rng, write_known=False):
         xb = out[pl:-3] if len(out) >= pl + 3 else b""
         after = int.from_bytes(out[-3:-1], "little") if len(out) >= 3 else -1
         emitting = mn not in NON_EMITTING
+        if mn.startswith("J") and args in (["farundef"], ["farbig"]) and len(xb) > 0 and xb[-2:] != (b"\x00\xf0" if args == ["farbig"] else b"\xff\xff"):
+            # a far jump came out although its segment is unknown, or with another segment than the one written
+            fail.append((i, "far-jump-segment-substituted"))
         if mn in DETAILED and any(a.startswith("badpair") for a in args) and emitting and len(xb) > 0:
             # the operand has no encoding at all (no 16-bit ModR/M row for this register pair): bytes without a diagnostic
             # can only be some other instruction
